@@ -127,7 +127,7 @@ def _(v):
         v.prove("renderer_called_once", len(calls) == 1)
     else:
         v.prove("plain_form_returned_verbatim", SP.conj([SP.neg(Sym(has_e)), r == Sym(flt)]))
-    v.prove("default_precision_is_5", True if prec is not None else True)
+    # (the default precision 5 is part of `flt` above: with prec=None the text must be that of "%.5g")
 
 
 @harness("C20", "_number_to_X.unit_and_uncertainty", functions=[NUM + ":_number_to_X"], kind="shape-bounded", samples=0)
